@@ -17,6 +17,26 @@ class Other:
     pass
 
 
+class DateTimeLike:
+    """quacks like an aware datetime - tzinfo, astimezone, timestamp, isoformat - without being one"""
+    tzinfo = timezone.utc
+
+    def astimezone(self, tz=None):
+        return self
+
+    def timestamp(self):
+        return 0.0
+
+    def isoformat(self):
+        return "14:30:00"
+
+    def replace(self, **kw):
+        return self
+
+    def __repr__(self):
+        return "DateTimeLike()"
+
+
 def universe():
     """(python value, Coq pyval literal) : every kind of value the checks can tell apart, well and ill typed"""
     atoms = [
@@ -30,6 +50,9 @@ def universe():
         ([["k", "v"]], "(PvList [PvList [PvStr [107%N]; PvStr [118%N]]])"), ([["k", 1]], "(PvList [PvList [PvStr [107%N]; PvInt 1]])"),
         ([["k", True]], "(PvList [PvList [PvStr [107%N]; PvBool true]])"), ([[1, "v"]], "(PvList [PvList [PvInt 1; PvStr [118%N]]])"),
         ({}, "(PvDict [])"), (lambda *a: None, "(PvCall 0)"), (Other(), "PvOther"), (len, "(PvCall 1)"),
+        # objects that are NOT datetimes but look like one from some side: an aware datetime.time (it has .tzinfo - UTC - and no astimezone), a date,
+        # an object with the attributes of a datetime
+        (T0.timetz(), "PvOther"), (T0.date(), "PvOther"), (DateTimeLike(), "PvOther"),
     ]
     key_atoms = [("k", "(PvStr [107%N])"), ("", "(PvStr [])"), (1, "(PvInt 1)"), (None, "PvNone"), (b"k", "(PvBytes [107%N])"), (True, "(PvBool true)"),
                  (2.5, "(PvFloat (NFin 5 (-1)))"), (("t", 1), "PvOther")]
@@ -64,7 +87,11 @@ def raises(f):
 def stored_ok(tf, db):
     """every stored value is well typed"""
     bad = []
-    for p in db.all():
+    try:
+        pts = db.all(sorted=False)
+    except Exception as e:  # noqa  what was stored cannot even be read back: something ill typed got in
+        return [("unreadable", f"db.all() raised {type(e).__name__}: {e}"[:200])]
+    for p in pts:
         if not isinstance(p.time, datetime) or p.time.tzinfo is None:
             bad.append(("time", repr(p.time)))
         if not isinstance(p.measurement, str):
